@@ -62,10 +62,10 @@ pub fn case_json(b: &Built, v: &Verdict) -> Value {
 /// `--replay <file>`: re-run the stored artefact against the current tree.
 pub fn replay_if_asked(ctx: &Ctx) {
     if let Some(p) = &ctx.replay {
-        let s = std::fs::read_to_string(p).unwrap_or_else(|e| mc_core::report::machinery_failure(&format!("cannot read {p:?}: {e}")));
-        let v: Value = mc_core::serde_json::from_str(&s).unwrap_or_else(|e| mc_core::report::machinery_failure(&format!("bad replay file: {e}")));
+        let s = std::fs::read_to_string(p).unwrap_or_else(|e| crate::fail(&format!("cannot read {p:?}: {e}")));
+        let v: Value = mc_core::serde_json::from_str(&s).unwrap_or_else(|e| crate::fail(&format!("bad replay file: {e}")));
         let art = v.pointer("/case/artefact").or_else(|| v.pointer("/artefact")).unwrap_or(&v);
-        let Some(b) = Built::from_json(art) else { mc_core::report::machinery_failure("replay file carries no TxLab artefact") };
+        let Some(b) = Built::from_json(art) else { crate::fail("replay file carries no TxLab artefact") };
         println!("replay {}: {}", ctx.prop, b.label);
         println!("  tx        = {}", hex::encode(&b.tx));
         println!("  verdict   = {:?}", exec::run(&b));
